@@ -1,6 +1,8 @@
 (* C07 - identical data is stored once. *)
 From Coq Require Import List Arith Bool.
+From Coq Require Import String.
 From Replicat Require Import Model.Repo Proofs.RepoProofs Proofs.RepoTie Gen.RepoFacts Model.Dedup Proofs.RoundTrip.
+From Replicat Require Import Lib.PyStr Model.Location Proofs.LocationProofs Proofs.FamiliesDisjoint.
 Import ListNotations.
 
 (* for crash-free histories of snapshot/delete/clean by any users, the chunk objects are exactly
@@ -29,6 +31,15 @@ Theorem C07_table_once : forall {D} (deqb : D -> D -> bool), (forall x y, deqb x
   forall ds, NoDup (table_of deqb ds) /\ (forall d, In d (table_of deqb ds) <-> In d ds).
 Proof. exact (fun D deqb H => table_spec deqb H). Qed.
 Print Assumptions C07_table_once.
+
+(* users of independent keys never alias each other's objects: two chunk storage names coincide only for
+   the same MAC key (= key family) and the same digest, for a MAC injective in (key, message) *)
+Theorem C07_families_disjoint : forall {B K} (mac2 : K -> B -> B) (hex : B -> string),
+  (forall b, hexs (hex b)) -> (forall b, 4 <= String.length (hex b)) -> (forall a b, hex a = hex b -> a = b) ->
+  (forall k1 k2 a b, mac2 k1 a = mac2 k2 b -> k1 = k2 /\ a = b) ->
+  forall k1 k2 d1 d2, chunk_location (mac2 k1) hex true d1 = chunk_location (mac2 k2) hex true d2 -> k1 = k2 /\ d1 = d2.
+Proof. exact (fun B K => @families_disjoint B K). Qed.
+Print Assumptions C07_families_disjoint.
 
 Theorem C07_source_facts : fact_worker_checks_then_uploads_then_records && fact_snapshot_object_uploaded_last && fact_snapshot_table_is_chunk_table = true.
 Proof. exact fact_snapshot_order. Qed.
